@@ -13,11 +13,11 @@ import (
 	"os"
 	"os/exec"
 	"os/signal"
-	"syscall"
 	"path/filepath"
 	"sort"
 	"strings"
 	"sync"
+	"syscall"
 	"time"
 
 	"github.com/sheerbytes/sheerbytes/internal/quictransport"
@@ -181,13 +181,13 @@ func (c *tapConn) resumeInfos() map[uint64]transfer.FileResumeInfo {
 }
 
 type runResult struct {
-	SendErr  string `json:"sendErr"`
-	ChildOut string `json:"childOut"`
-	ChildRC  int    `json:"childRC"`
-	Killed   bool   `json:"killed"`
+	SendErr  string                             `json:"sendErr"`
+	ChildOut string                             `json:"childOut"`
+	ChildRC  int                                `json:"childRC"`
+	Killed   bool                               `json:"killed"`
 	Infos    map[uint64]transfer.FileResumeInfo `json:"-"`
-	Framed   map[uint64][]int `json:"-"` // file key -> chunk indices framed by the sender (in order)
-	Hung     bool   `json:"hung"`
+	Framed   map[uint64][]int                   `json:"-"` // file key -> chunk indices framed by the sender (in order)
+	Hung     bool                               `json:"hung"`
 }
 
 // oneRun: parent = real sender on a loopback QUIC listener, child = real receiver process.
@@ -381,9 +381,9 @@ func sameInts(a, b []int) bool {
 }
 
 var resumeTrees = map[string][]xfer.FileSpec{
-	"one4":   {{Rel: "big.bin", Size: 4*64 - 5}},
-	"two":    {{Rel: "a.bin", Size: 3 * 64}, {Rel: "d/b.bin", Size: 2*64 + 1}, {Rel: "d/zero", Size: 0}},
-	"eight":  {{Rel: "e.bin", Size: 8 * 64}},
+	"one4":  {{Rel: "big.bin", Size: 4*64 - 5}},
+	"two":   {{Rel: "a.bin", Size: 3 * 64}, {Rel: "d/b.bin", Size: 2*64 + 1}, {Rel: "d/zero", Size: 0}},
+	"eight": {{Rel: "e.bin", Size: 8 * 64}},
 }
 
 // ResumeKill enumerates kill points of the receiver process, checks the disk
